@@ -256,6 +256,9 @@ func (e *Executor) rawTx(proposals []*BtcTransferProposal, resource config.Resou
 	if err != nil {
 		return nil, nil, err
 	}
+	if inputAmount < outputAmount+fee {
+		return nil, nil, fmt.Errorf("utxo input amount %d less than output amount %d plus fee %d", inputAmount, outputAmount, fee)
+	}
 
 	returnAmount := inputAmount - fee - outputAmount
 	if returnAmount > 0 {
